@@ -41,7 +41,9 @@ func (e *Eng) funcEnv(fr *Frame) *Env {
 		}
 	}
 	for _, fv := range fr.fn.FreeVars {
-		if v, ok := fr.vals[fv]; ok {
+		if v, ok := fr.freeVals[fv.Name()]; ok {
+			env.vars[fv.Name()] = v
+		} else if v, ok := fr.vals[fv]; ok {
 			env.vars[fv.Name()] = v
 		}
 	}
